@@ -575,6 +575,9 @@ func Gen(prop, tier string, seed, run uint64) Plan {
 	} else if (prop == "C10" || prop == "C05" || prop == "C07" || prop == "C06" || prop == "C16") && r.IntN(5) == 0 {
 		// a capture file that holds no packet (a rotated capture with only its header)
 		bad := Op{C: CImp, K: "ImportBad", V: 3}
+		if r.IntN(3) == 0 {
+			bad.V = 0 // not a capture at all: skipped by the import, never listed
+		}
 		at := r.IntN(len(impOps) + 1)
 		impOps = append(impOps[:at], append([]Op{bad}, impOps[at:]...)...)
 	}
